@@ -64,7 +64,21 @@ fn abs_glob(g: &Glob<'_>, sigma: &[u32], paths: &[String]) -> Value {
         "sem": g.has_semantic_literals(), "empty": g.is_empty(), "ncap": ncap,
         "caps": g.captures().map(|c| json!([c.index(), c.span().0, c.span().1])).collect::<Vec<_>>(),
         "display": cps(&g.to_string()), "ms": ms, "owned_ok": owned_ok,
+        "part": partition_of(g),
     })
+}
+
+/// what partitioning this value gives: prefix, displayed postfix and the language of the postfix
+fn partition_of(g: &Glob<'_>) -> Value {
+    match crate::observe::guarded(|| {
+        let (prefix, post) = g.clone().partition();
+        json!({"prefix": cps(&prefix.to_string_lossy()), "has_post": post.is_some(),
+               "post": post.as_ref().map_or_else(Vec::new, |p| cps(&p.to_string())),
+               "post_root": post.as_ref().map_or("never".to_string(), |p| format!("{:?}", p.has_root()))})
+    }) {
+        Ok(v) => v,
+        Err(site) => json!({"panic": site}),
+    }
 }
 
 fn abs_any(a: &Any<'_>, sigma: &[u32], paths: &[String]) -> Value {
